@@ -35,6 +35,11 @@ LISTENER = {
     "Done": {"next": set(), "exits": {"panic"}},
 }
 
+SELFTEST = [
+    {"mutation": "seeded/C14b: poll_write_vectored uses `poll_write_buffer(..)?` (Pending silently dropped)", "caught_by": "transparent/LengthDelimitedReader::poll_write_vectored: the underlying stream is touched only after the frame buffer was written out"},
+    {"mutation": "seeded/C14: listener Flush restores protocol: None on Pending", "caught_by": "fsm/listener/Flush: Pending restores the same state with the arm's own fields"},
+    {"neutral": "neutral/sec/01 (if-let -> match), renamed `message` local, renamed arm bindings", "silent": True},
+]
 
 def store_fields(body, site):
     """field -> expression of a `*state = State::V{..}` store, with the arm's pattern bindings (`io`, `protocol`, .. whatever
